@@ -315,6 +315,7 @@ type c15Event struct {
 	Kind   string `json:"kind"` // arrive | depart
 	Client int    `json:"client"`
 	Out    bool   `json:"outsider,omitempty"` // arrive: from a non-whitelisted address
+	Silent bool   `json:"silent,omitempty"`   // arrive: connects but never sends a byte (availability probe, or a waiter that gives up)
 }
 
 type c15LimitCase struct {
@@ -335,7 +336,7 @@ func genC15Limit(t *rapid.T) c15LimitCase {
 			if next >= maxClients {
 				continue
 			}
-			c.Events = append(c.Events, c15Event{Kind: "arrive", Client: next, Out: rapid.IntRange(0, 4).Draw(t, l+"-out") == 0})
+			c.Events = append(c.Events, c15Event{Kind: "arrive", Client: next, Out: rapid.IntRange(0, 4).Draw(t, l+"-out") == 0, Silent: rapid.IntRange(0, 3).Draw(t, l+"-silent") == 0})
 			live = append(live, next)
 			next++
 		} else {
@@ -376,10 +377,12 @@ func runC15LimitOnce(c c15LimitCase, st *hx.Stats) error {
 	// model: slots in use by served clients, FIFO queue of pending arrivals
 	served := map[int]bool{}
 	type pend struct {
-		id   int
-		out  bool
-		dead bool
+		id     int
+		out    bool
+		dead   bool
+		silent bool
 	}
+	silent := map[int]bool{}
 	var queue []*pend
 	rejected := map[int]bool{}
 	promote := func() {
@@ -401,7 +404,7 @@ func runC15LimitOnce(c c15LimitCase, st *hx.Stats) error {
 		// served clients must have their reply, rejected ones must be closed without a byte
 		ok := waitFor(5*time.Second, func() bool {
 			for id := range served {
-				if p := clients[id]; p != nil {
+				if p := clients[id]; p != nil && !silent[id] {
 					if n, _ := p.state(); n < 33 {
 						return false
 					}
@@ -418,7 +421,7 @@ func runC15LimitOnce(c c15LimitCase, st *hx.Stats) error {
 		})
 		if !ok {
 			for id := range served {
-				if p := clients[id]; p != nil {
+				if p := clients[id]; p != nil && !silent[id] {
 					if n, eof := p.state(); n < 33 {
 						return hx.Failf("slot-freed-serves-waiting", "step %d: client %d holds or was given a free slot (limit %d, %d served) but has %d reply bytes after 5 s (eof %v)", step, id, c.N, len(served), n, eof)
 					}
@@ -440,6 +443,13 @@ func runC15LimitOnce(c c15LimitCase, st *hx.Stats) error {
 			}
 			if n, eof := clients[p.id].state(); n > 0 || eof {
 				return hx.Failf("beyond-limit-not-served", "step %d: client %d arrived while all %d slots were held but received %d bytes (closed: %v)", step, p.id, c.N, n, eof)
+			}
+		}
+		for id := range served {
+			if p := clients[id]; p != nil && silent[id] {
+				if n, eof := p.state(); n > 0 || eof {
+					return hx.Failf("silent-client-kept", "step %d: client %d holds a slot and has sent nothing: it received %d bytes / was closed (%v) although no read timeout is configured", step, id, n, eof)
+				}
 			}
 		}
 		for id := range rejected {
@@ -464,9 +474,13 @@ func runC15LimitOnce(c c15LimitCase, st *hx.Stats) error {
 				return fmt.Errorf("dial: %w", err)
 			}
 			clients[ev.Client] = p
-			p.send(hx.Req{Op: "STAT", Path: "/"})
+			if ev.Silent {
+				silent[ev.Client] = true
+			} else {
+				p.send(hx.Req{Op: "STAT", Path: "/"})
+			}
 			full := len(served) >= c.N
-			queue = append(queue, &pend{id: ev.Client, out: ev.Out})
+			queue = append(queue, &pend{id: ev.Client, out: ev.Out, silent: ev.Silent})
 			promote()
 			if full && ev.Out {
 				rejectedWhileFull = true
@@ -535,7 +549,16 @@ func runC15LimitOnce(c c15LimitCase, st *hx.Stats) error {
 		if rejectedWhileFull {
 			st.Label("a rejected arrival happened while the slots were full")
 		}
-		if waitedThenServed || rejectedWhileFull {
+		silentLeft := false
+		for _, ev := range c.Events {
+			if ev.Kind == "depart" && silent[ev.Client] {
+				silentLeft = true
+			}
+		}
+		if silentLeft {
+			st.Label("a client left without ever sending a byte")
+		}
+		if waitedThenServed || rejectedWhileFull || silentLeft {
 			st.NT(fmt.Sprintf("%s|%d|%v", c.Target, c.N, c.Events))
 		}
 		st.Sample(map[string]any{"limit": c.N, "target": c.Target, "events": len(c.Events)})
